@@ -183,6 +183,53 @@ def half_drift(sim):
         p.z += p.vz / 2
 
 
+def face_rows(cfg, allnotes):
+    """particles exactly on a face of the box (the lattice of the traces keeps off the faces): the box is closed -- the wrap leaves a
+    particle on a face where it is and the tree holds it; nobody is lost, duplicated or left without a leaf"""
+    W, NR = cfg["W"], cfg["NR"]
+    L = [W * NR[a] for a in range(3)]
+    if cfg["BType"] == "shear":
+        return
+    for axis in (0, 1, 2, 3):
+        for sign in (1, -1):
+            for landing in (False, True):            # already there when added / arriving there with the step
+                sim = rebound.Simulation()
+                sim.integrator = "leapfrog"
+                sim.G = 0.0
+                sim.dt = 1.0
+                sim.configure_box(float(W), NR[0], NR[1], NR[2])
+                sim.boundary = cfg["BType"]
+                sim.gravity = "none"
+                sim.collision = "tree"
+                sim.collision_resolve = resolver
+                face = [sign * L[a] / 2 if (axis == a or axis == 3) else 1.0 for a in range(3)]
+                vel = [0.0, 0.0, 0.0]
+                pos = list(face)
+                if landing:
+                    for a in range(3):
+                        if axis == a or axis == 3:
+                            vel[a] = sign * 2.0
+                            pos[a] = face[a] - vel[a] * 1.0
+                try:
+                    sim.add(m=1.0, x=pos[0], y=pos[1], z=pos[2], vx=vel[0], vy=vel[1], vz=vel[2], r=0.0, hash=1)
+                    sim.add(m=1.0, x=-1.0, y=-1.0, z=-1.0, r=0.0, hash=2)
+                    sim.add(m=1.0, x=-3.0, y=1.0, z=-1.0, r=0.0, hash=3)
+                    sim.step()
+                    clibrebound.reb_simulation_update_tree(ctypes.byref(sim))
+                    sim.process_messages()
+                except Exception as ex:  # noqa: BLE001
+                    allnotes.append("library error with a particle exactly on the %s%s face (%s box, %s): %s"
+                                    % ("+" if sign > 0 else "-", "xyz*"[axis], cfg["BType"], "arriving with the step" if landing else "added there", str(ex)[:120]))
+                    continue
+                hs = sorted(int(sim.particles[i].hash.value) for i in range(sim.N) if not math.isnan(sim.particles[i].y))
+                leaves = sorted(lf[2] for lf in walk(sim)[0])
+                want = [1, 2, 3] if (cfg["BType"] != "open") else hs
+                if hs != want or leaves != list(range(sim.N)):
+                    allnotes.append("particle exactly on the %s%s face (%s box, %s): live particles %s, tree leaves %s"
+                                    % ("+" if sign > 0 else "-", "xyz*"[axis], cfg["BType"], "arriving with the step" if landing else "added there", hs, leaves))
+                del RESOLVER_CALLS[:]
+
+
 def main():
     cfg = json.load(open(sys.argv[1]))
     out, seed, ntr = sys.argv[2], int(sys.argv[3]), int(sys.argv[4])
@@ -296,6 +343,8 @@ def main():
                 if hashes1 != hashes0 or outside or leaves != list(range(sim.N)):
                     allnotes.append("move_to_com with a tree (%s box): particles before %s, after %s, outside the box %s, tree leaves %s"
                                     % (cfg["BType"], hashes0, hashes1, outside, leaves))
+    if cfg["UseTree"]:
+        face_rows(cfg, allnotes)
     print(json.dumps({"notes": allnotes[:10]}))
 
 
